@@ -59,13 +59,13 @@ def liqAmounts (pd pc actual userBal bonus : Rat) : Res (Rat × Rat) := do
   let maxColl := cx.mul should onePlus
   if maxColl > userBal then do
     let d ← divE cx (cx.mul pc userBal) (cx.mul pd onePlus)
-    pure (userBal, d)
+    pure (userBal, if d < actual then d else actual)        -- `min(actual, d)`: scaled down, never up
   else pure (maxColl, actual)
 
-/-- the mutations of `_do_liquidate`: seize, then repay (or the late `raise`), then the five resets -/
-def liqCommit (ctok : String) (info : SupplyInfo) (nb : Rat) (dtok : String) (varDebt debtLiq : Rat) : M Rat := do
+/-- the mutations of `_do_liquidate`: seize, then repay, then the five resets -/
+def liqCommit (ctok : String) (info : SupplyInfo) (nb : Rat) (dtok : String) (debtLiq : Rat) : M Rat := do
   liqSeize ctok info nb
-  let remaining ← if varDebt ≥ debtLiq then subBorrowAmount cx env dtok debtLiq else throw .liqDebtExceeds
+  let remaining ← subBorrowAmount cx env dtok debtLiq
   resetAll
   pure remaining
 
@@ -91,9 +91,10 @@ def doLiquidate (ctok? : Option String) (dtok? : Option String) (toCover : Rat) 
   let pd ← ofRes (env.priceOf dtok)
   let pc ← ofRes (env.priceOf ctok)
   let amts ← ofRes (liqAmounts cx pd pc actual userBal cr.bonus)
+  require (varDebt ≥ amts.2) .liqDebtExceeds          -- raised before anything is changed
   let dBase ← ofRes (divE cx amts.1 supplyIndex)
   let nb := subBase cx info.base dBase
-  let remaining ← liqCommit cx env ctok info nb dtok varDebt amts.2
+  let remaining ← liqCommit cx env ctok info nb dtok amts.2
   let hfAfter ← healthFactor cx env
   let collBaseAfter ← queryPos (fun sup _ => .ok (match AList.get? sup ctok with
     | some i => i.base
